@@ -353,6 +353,7 @@ func (n *Net) harvest() {
 			m.id = fmt.Sprintf("%s/%s>%s/%s/%016x", m.kind, epName(m.src), m.dstName(), m.method, H(0, m.payload, m.streamID()))
 		}
 	}
+	sendOrder := append([]*message(nil), p...) // what was sent when (single P: a function of the seed)
 	sort.SliceStable(p, func(i, j int) bool { return p[i].id < p[j].id })
 	now := n.r.Now()
 	for _, m := range p {
@@ -387,6 +388,10 @@ func (n *Net) harvest() {
 			}
 		}
 		heap.Push(&n.q, m)
+	}
+	// observers see the messages of this step in the order in which they were sent: "an ack
+	// left the node after its NewTerm reply" must not be an artefact of the canonical sort
+	for _, m := range sendOrder {
 		if n.TapSent != nil && m.kind != mTimer && m.kind != mCancel && !(m.src != nil && m.src.Dead()) {
 			var dst *Endpoint
 			switch {
